@@ -73,7 +73,12 @@ impl Trace {
             n: 0,
         }
     }
-    pub fn emit(&mut self, v: Value) {
+    pub fn emit(&mut self, mut v: Value) {
+        // strings cannot be indexed in TLC: spell out whether a textual result is a success
+        if let Some(r) = v.get("res").and_then(|r| r.as_str()) {
+            let ok = r.starts_with("ok");
+            v["res_ok"] = serde_json::json!(ok);
+        }
         serde_json::to_writer(&mut self.w, &v).unwrap();
         self.w.write_all(b"\n").unwrap();
         self.n += 1;
